@@ -69,16 +69,30 @@ def nan_safe(ctx, rule='C19-R1'):
               instance='step_scale: output starts as NaN (NaN in -> NaN out)')
 
 
-def _exprs(fx, q, rule):
+def _exprs(fx, q, rule, many=False):
     """(do expression, undo expression, events) for a scaling routine."""
     evs = split_alternatives(fx.deep_events(q))
     do = [e for e in evs if e.kind in ('return', 'store') and MODE_DO in guard_literals(e.guard)
           and not T.is_const(e.value)]
     undo = [e for e in evs if e.kind in ('return', 'store') and MODE_UNDO in guard_literals(e.guard)
             and not T.is_const(e.value)]
+    if not do or not undo:
+        raise AnalysisError(rule, f'{q}: {len(do)} do / {len(undo)} undo expressions found')
+    if many:
+        return do, undo
     if len(do) != 1 or len(undo) != 1:
         raise AnalysisError(rule, f'{q}: {len(do)} do / {len(undo)} undo expressions found')
     return do[0], undo[0]
+
+
+def _compose(de, ue):
+    """(identity?, a, b, c, d) for do(v) = a*v + b, undo(w) = c*w + d; raises AnalysisError when not affine."""
+    atomised = frozenset(denominators(de.value) | denominators(ue.value))
+    dp = to_poly(de.value, V, atomised)
+    up = to_poly(ue.value, V, atomised)
+    a, b = dp.coef_of(V)
+    c, d = up.coef_of(V)
+    return (c * a == Poly.const(1) and c * b + d == Poly()), a, b, c, d
 
 
 def inverse_pairs(ctx, rule='C19-R2'):
@@ -88,33 +102,42 @@ def inverse_pairs(ctx, rule='C19-R2'):
         q = f'{MOD}.{name}'
         f = p.func(q, rule)
         ctx.saw(f)
-        de, ue = _exprs(fx, q, rule)
-        atomised = frozenset(denominators(de.value) | denominators(ue.value))
-        try:
-            dp = to_poly(de.value, V, atomised)
-            up = to_poly(ue.value, V, atomised)
-            a, b = dp.coef_of(V)           # do(v) = a*v + b
-            c, d = up.coef_of(V)           # undo(w) = c*w + d
-        except AnalysisError as err:
-            ctx.violation(rule, q, de.node, de.loc(), f'{name}: scaling expression is not affine in the data ({err.why})',
-                          instance=f'{name}: do/undo affine')
-            continue
-        comp_lin = c * a
-        comp_const = c * b + d
-        ok = comp_lin == Poly.const(1) and comp_const == Poly()
-        ctx.check(ok, rule, q, ue.node, ue.loc(),
-                  f'{name}: undo(do(v)) = ({comp_lin.show()})*v + ({comp_const.show()}): not the identity; do = '
-                  f'({a.show()})*v + ({b.show()}), undo = ({c.show()})*w + ({d.show()})',
-                  facts={'do': T.show(de.value, maxlen=300), 'undo': T.show(ue.value, maxlen=300)},
-                  instance=f'{name}: undo(do(v)) == v')
-        ctx.sample({f'{name}': {'do': f'({a.show()})*v + ({b.show()})', 'undo': f'({c.show()})*w + ({d.show()})'}})
-        # R3: the coefficient of the forward map is 1 / (one positive quantity)
-        mono = a.is_monomial() and list(a.d.values()) == [1] and len(list(a.d)[0]) == 1 and list(a.d)[0][0][1] == -1
-        ctx.check(mono, 'C19-R3', q, de.node, de.loc(),
-                  f'{name}: forward coefficient is {a.show()}: expected 1 / scale (a single positive quantity), which '
-                  'makes the scaling order-preserving', instance=f'{name}: do(v) increasing (coefficient 1/positive)')
+        dos, undos = _exprs(fx, q, rule, many=True)
+        partnered = set()
+        for de in dos:
+            best = None
+            try:
+                for j, ue in enumerate(undos):
+                    res = _compose(de, ue)
+                    if best is None or res[0]:
+                        best = (ue, res, j)
+                    if res[0]:
+                        break
+            except AnalysisError as err:
+                ctx.violation(rule, q, de.node, de.loc(), f'{name}: scaling expression is not affine in the data ({err.why})',
+                              instance=f'{name}: do/undo affine')
+                continue
+            ue, (ok, a, b, c, d), j = best
+            if ok:
+                partnered.add(j)
+            ctx.check(ok, rule, q, ue.node if ok else de.node, ue.loc() if ok else de.loc(),
+                      f'{name}: undo(do(v)) = ({(c * a).show()})*v + ({(c * b + d).show()}): not the identity; do = '
+                      f'({a.show()})*v + ({b.show()})' + (f' (under {T.show(de.guard, maxlen=120)})' if len(dos) > 1 else '') +
+                      f', undo = ({c.show()})*w + ({d.show()}): no undo expression inverts this forward expression',
+                      facts={'do': T.show(de.value, maxlen=300), 'undo': T.show(ue.value, maxlen=300)},
+                      instance=f'{name}: undo(do(v)) == v')
+            ctx.sample({f'{name}': {'do': f'({a.show()})*v + ({b.show()})', 'undo': f'({c.show()})*w + ({d.show()})'}})
+            # R3: the coefficient of the forward map is 1 / (one positive quantity)
+            mono = a.is_monomial() and list(a.d.values()) == [1] and len(list(a.d)[0]) == 1 and list(a.d)[0][0][1] == -1
+            ctx.check(mono, 'C19-R3', q, de.node, de.loc(),
+                      f'{name}: forward coefficient is {a.show()}: expected 1 / scale (a single positive quantity), which '
+                      'makes the scaling order-preserving', instance=f'{name}: do(v) increasing (coefficient 1/positive)')
+        for j, ue in enumerate(undos):
+            if j not in partnered and len(undos) > 1:
+                ctx.violation(rule, q, ue.node, ue.loc(), f'{name}: this undo expression inverts none of the forward expressions '
+                              f'({T.show(ue.value, maxlen=120)})', instance=f'{name}: every undo expression has a forward partner')
         # masks of store-based scalings: the values read and the cells written use the same condition
-        for e in (de, ue):
+        for e in list(dos) + list(undos):
             if e.kind == 'store':
                 tm = e.target[2] if tag(e.target) == 'mask' else None
                 vm = [x[2] for x in T.walk(e.value) if tag(x) == 'mask' and x[1] == V]
@@ -317,3 +340,47 @@ def step_continuity(ctx, rule='C19-R6', max_steps=5):
     ctx.floor(rule, 'edge / segment obligations of step_scale', nchecked, 40)
     ctx.tables['step_scale_instantiation'] = {'step_counts': list(range(max_steps + 1)), 'obligations': nchecked,
                                               'domain': 'Laurent polynomials over s_i (edges), c_i (scales), v'}
+
+
+# ---------------------------------------------------------------------------------------------- C19-R7
+def given_parameters_honoured(ctx, rule='C19-R7'):
+    """convert_kwargs derives a scaling parameter from the data only when the caller did not give it: whether a
+    default applies is decided by the *presence* of the key, never by the truth value of what is stored under it
+    (a legitimate shift of 0, or a min_val of 0, is a given parameter)."""
+    fx = effects(ctx)
+    p = ctx.project
+    q = f'{MOD}.convert_kwargs'
+    f = p.func(q, rule)
+    ctx.saw(f)
+    n = 0
+    for e in fx.deep_events(q):
+        if e.kind != 'store':
+            continue
+        tgt = e.target
+        if tag(tgt) not in ('col', 'sub') or not T.contains(tgt[1], lambda x: x == ('p', '**kwargs')):
+            continue
+        key = tgt[2] if tag(tgt) == 'col' else (tgt[2][1] if T.is_const(tgt[2]) else None)
+        if key not in ('shift', 'min_val', 'max_val', 'scale'):
+            continue
+        n += 1
+
+        def value_test(x):
+            # kwargs[key] / kwargs.get(key) used as a condition (alone or negated), not as an operand of `in`
+            if tag(x) == 'not':
+                x = x[1]
+            if tag(x) in ('col', 'sub') and T.root(x) == ('p', '**kwargs'):
+                k = x[2] if tag(x) == 'col' else (x[2][1] if T.is_const(x[2]) else None)
+                return k in ('shift', 'min_val', 'max_val', 'scale')
+            if tag(x) == 'mcall' and x[1] == ('p', '**kwargs') and x[2] in ('get', 'pop') and x[3] and T.is_const(x[3][0]):
+                return x[3][0][1] in ('shift', 'min_val', 'max_val', 'scale')
+            return False
+        lits = []
+        for l in guard_literals(e.guard):
+            lits += list(l[1]) if tag(l) == 'or' else [l]
+        bad = [l for l in lits if value_test(l)]
+        ctx.check(not bad, rule, q, e.node, e.loc(),
+                  f"the data-derived default for '{key}' is applied under {T.show(bad[0], maxlen=100) if bad else ''}: a truth "
+                  f"test of the given value, so that a legitimate {key} of 0 counts as not given - do() then shifts by the "
+                  'data maximum, undo() refuses, and the pair is no longer forward / backward',
+                  instance=f"convert_kwargs: default '{key}' only when the key is absent")
+    ctx.floor(rule, 'data-derived defaults stored by convert_kwargs', n, 4)
